@@ -52,13 +52,13 @@ STUBS = ['E1 scheduler.time -> 0.0', 'E2 tqdm -> None', 'E3 logging disabled', '
 # ------------------------------------------------------------------------------------------------ skeleton config
 def skeleton(nobs, nmach, names=None):
     os.makedirs(WORK, exist_ok=True)
-    p = os.path.join(WORK, f'cfg_{nobs}_{nmach}' + ('_' + '-'.join(names) if names else '') + '.json')
+    p = os.path.join(WORK, f'cfg2_{nobs}_{nmach}' + ('_' + '-'.join(names) if names else '') + '.json')
     if not os.path.exists(p):
         obs = [dict(name=f'o{i + 1}', start=0, duration=1, instrument_demand=1, data_product_rate=1) for i in range(nobs)]
         cfg = {'instrument': {'telescope': {'total_arrays': 4, 'max_ingest_resources': 2,
                                             'pipelines': {o['name']: {'workflow': f"wf_{o['name']}.json", 'ingest_demand': 1} for o in obs},
                                             'observations': obs}},
-               'cluster': {'header': {}, 'system': {'resources': {(names[i] if names else f'm{i}'): {'flops': 10, 'compute_bandwidth': 5} for i in range(nmach)},
+               'cluster': {'header': {}, 'system': {'resources': {(names[i] if names else f'm{i}'): {'flops': [10, 30, 10, 20][i % 4], 'compute_bandwidth': [5, 9, 5, 7][i % 4]} for i in range(nmach)},
                                                     'system_bandwidth': 1}},
                'buffer': {'hot': {'capacity': 1000, 'max_ingest_rate': 100}, 'cold': {'capacity': 1000, 'max_data_rate': 100}},
                'timestep': 'seconds'}
@@ -375,6 +375,12 @@ def probe(sim, mon, snaps):
             mon.tag('C19/telescope-is-idle-wrong')
         if sim.is_finished() != (truly_idle and b_empty and t_idle and len(sch.observation_queue) == 0):
             mon.tag('C19/simulation-is-finished-wrong')
+        # C15: once a task that was given a delay has completed (and the scheduler has had two steps to see it) the
+        # schedule is reported as delayed, at every later instant
+        if sch.schedule_status is not ScheduleStatus.DELAYED:
+            for tid, x in mon.extras.items():
+                if x > 0 and tid in mon.exit and mon.exit[tid] + 3 <= env.now:
+                    mon.tag('C15/delayed-schedule-not-reported-after-delayed-task-completed')
         row = true_row(sim)
         row['t'] = env.now
         row['statuses'] = [o.status.value for o in tel.observations]
@@ -459,7 +465,8 @@ class Result:
 
 
 def build(sc):
-    """real Simulation object for the scenario (numbers overwritten after real Config parsing)"""
+    """real Simulation object for the scenario (numbers overwritten after real Config parsing; the skeleton's machines have
+    unequal speeds and bandwidths in no particular order, so anything decided from them at construction time shows)"""
     global CUR
     nobs, nmach = len(sc['obs']), len(sc['machines'])
     cfgpath = skeleton(nobs, nmach, sc.get('names'))
